@@ -120,6 +120,13 @@ def run(case, ctx):
         LOG.n("c19.random_streams")
     if len(stream) > 160:
         stream = stream[:160]
+    if case.get("stream_seed", 0) % 2 == 0 or case["kind"] == "tokenise" and case["impute"]:
+        # "streams that no tokenise call produced (for example model output)": tokens arrive as text, i.e. as string objects
+        # that are equal to the vocabulary's keys but not the same objects
+        import json
+        stream = json.loads(json.dumps(stream))
+        stream = [("" + t[:1] + t[1:]) for t in stream]
+        LOG.n("c19.stream_of_recreated_strings")
     info = tok.get_info(stream, flag_impute_values=case["impute"])
     n = len(stream)
     keys = ("info_position", "info_time", "info_time_bar", "info_pitch", "info_circle_of_fifths")
